@@ -138,9 +138,32 @@ def verify_function(fv):
         fv.add_fact(st, fv.typed_fact(sv.term, ty))
         for f in fv.deep_facts(sv.term, ty):
             fv.add_fact(st, f)
+        from .heap import ALLOC0
         if ty.strip_opt().is_obj:
-            from .heap import ALLOC0
             fv.add_fact(st, z3.Implies(sv.term != P.none, z3.Select(ALLOC0, sv.term)))
+        else:
+            # objects stored in a container argument exist before the call
+            tt = ty.strip_opt()
+            if tt.kind in ('seq', 'tuple', 'set') and tt.args[0].strip_opt().is_obj:
+                i = z3.Int('i!pa%d' % next(E.counter))
+                if tt.kind == 'set':
+                    x = z3.Const('x!pa%d' % next(E.counter), P.V)
+                    fv.add_fact(st, z3.ForAll([x], z3.Implies(z3.And(P.smem(sv.term, x), x != P.none), z3.Select(ALLOC0, x)),
+                                              patterns=[P.smem(sv.term, x)]))
+                else:
+                    e = P.at(sv.term, i)
+                    fv.add_fact(st, z3.ForAll([i], z3.Implies(z3.And(0 <= i, i < P.slen(sv.term), e != P.none),
+                                                              z3.Select(ALLOC0, e)), patterns=[e]))
+            elif tt.kind == 'map':
+                x = z3.Const('k!pa%d' % next(E.counter), P.V)
+                conj = []
+                if tt.args[0].strip_opt().is_obj:
+                    conj.append(z3.Implies(x != P.none, z3.Select(ALLOC0, x)))
+                if tt.args[1].strip_opt().is_obj:
+                    conj.append(z3.Implies(P.get(sv.term, x) != P.none, z3.Select(ALLOC0, P.get(sv.term, x))))
+                if conj:
+                    fv.add_fact(st, z3.ForAll([x], z3.Implies(P.has(sv.term, x), z3.And(*conj)),
+                                              patterns=[P.has(sv.term, x), P.get(sv.term, x)]))
     if fv.cls is not None and real and real[0] == 'self' and 'self' in st.env and fv.cls.key in E.fe.classes:
         # the receiver's dynamic class is one that inherits exactly this implementation
         fe = E.fe
